@@ -30,6 +30,9 @@ type IOpt<T> =
 
 type IBox<T> = {Val: T; Tag: string}
 type IPair<A, B> = {Fst: A; Snd: B}
+type IEither<A, B> =
+| ILeft of A
+| IRight of B
 
 let ipair a b =
   (a, b)
@@ -1070,7 +1073,8 @@ def generate(rng, n):
 
 # ------------------------------------------------------------------------------------------ abstract syntax -> Folang text
 CALLFMT = {"int+": "{0} + {1}", "same+": "{0} + {1}", "str+": "{0} + {1}", "cmp": "{0} < {1}", "eq": "{0} = {1}", "{IR1}": "{{A={0}; B={1}}}", "{IR2}": "{{Name={0}; Vals={1}}}", "{IR3}": "{{C={0}; D={1}}}",
-           "{IBox}": "{{Val={0}; Tag={1}}}", "{IPair}": "{{Fst={0}; Snd={1}}}"}
+           "{IBox}": "{{Val={0}; Tag={1}}}", "{IPair}": "{{Fst={0}; Snd={1}}}",
+           "ILeft<int,string>": "ILeft<int, string> {0}", "IRight<int,string>": "IRight<int, string> {0}"}
 
 
 def render_ast(e):
@@ -1119,7 +1123,16 @@ class AstFn:
                 self.body.append("let %s = %s" % (st[1], render_ast(st[2])))
             else:
                 self.body.append("let (%s) = %s" % (", ".join(st[1]), render_ast(st[2])))
-        self.body.append(render_ast(ast["fin"]))
+        fin = ast["fin"]
+        if fin[0] == "match":
+            # (rules with a payload variable or without payload; a default rule)
+            self.body.append("match %s with" % fin[1])
+            for case, bind, body in fin[2]:
+                self.body.append("| %s%s -> %s" % (case, (" " + bind) if bind else "", render_ast(body)))
+            for body in fin[3]:
+                self.body.append("| _ -> %s" % render_ast(body))
+        else:
+            self.body.append(render_ast(fin))
 
     def spec(self):
         return {"name": self.name, "ast": self.ast}
@@ -1199,6 +1212,15 @@ def kernels():
                                 ["let", "w", _fld("x", "Snd")]], pair(pair(V("t"), V("l")), V("w")))
     K("k22d", ["x", "y", "a", "c"], [["let", "l", ["slice", [V("x"), P(V("a"), LIT["str"])]]], ["let", "m", ["slice", [V("y"), P(LIT["int"], V("c"))]]],
                                 ["let", "n", ["slice", [V("x"), V("y")]]]], pair(pair(V("l"), V("m")), V("n")))
+    # a generic UNION with two type parameters: instances composed of partially known ones, and a match on an annotated one
+    EI = ("IEither<int, string>", ["named", "IEither", [INT, STR]])
+    # (a constructor whose payload does not mention every type parameter carries explicit type arguments: Go could not infer them)
+    L = lambda x: call("ILeft<int,string>", x)
+    R = lambda x: call("IRight<int,string>", x)
+    K("k23a", ["x", "a", "b"], [["let", "p", ["slice", [V("x"), L(V("a"))]]], ["let", "q", ["slice", [V("x"), R(V("b"))]]]], pair(V("p"), V("q")))
+    K("k23b", ["x", "y", "a", "b"], [["let", "p", ["slice", [V("x"), L(V("a"))]]], ["let", "q", ["slice", [V("y"), R(V("b"))]]],
+                                     ["let", "r", ["slice", [V("x"), V("y")]]]], pair(pair(V("p"), V("q")), V("r")))
+    KA("k23c", ["e", "a", "b"], {"e": EI}, ["match", "e", [["ILeft", "n", pair(V("n"), V("b"))], ["IRight", "s", pair(V("a"), V("s"))]], []])
     # a lambda parameter with the name of an outer variable that is used again after the lambda: the two are different variables
     K("k21a", ["x", "ys"], [["let", "zs", call("slice.Map", ["lam", "x", call("int+", V("x"), LIT["int"])], V("ys"))]], pair(V("x"), V("zs")))
     K("k21b", ["x", "ys"], [["let", "zs", call("slice.Map", ["lam", "x", call("int+", V("x"), LIT["int"])], V("ys"))], ["let", "w", ["slice", [V("x"), LIT["str"]]]]], pair(V("w"), V("zs")))
